@@ -31,11 +31,15 @@ pub struct C18World {
     pub partial: u64,
     /// boolean scenario: intersection | difference
     pub op: String,
+    /// first operation on the freshly built shape, before anything else can restructure it:
+    /// none | remove_min | remove_max | next_min | prev_max | contains_min | contains_max | min | max
+    pub first: String,
 }
 
 const GUARD: usize = 64 << 10;
 pub const STACKS: [u64; 2] = [8 << 20, 2 << 20];
 const SHAPES: [&str; 5] = ["asc", "desc", "zigzag", "blocks", "random"];
+const FIRSTS: [&str; 9] = ["none", "remove_min", "remove_max", "next_min", "prev_max", "contains_min", "contains_max", "min", "max"];
 const TEARDOWNS: [&str; 8] = ["drop", "clear", "consume_fwd", "consume_back", "consume_mixed", "partial_fwd", "partial_back", "extend_drop"];
 
 /// Fixed grid of full-scale scenarios (index -> scenario) followed by seeded ones.
@@ -43,7 +47,7 @@ fn grid(tier: Tier) -> Vec<C18World> {
     let mut g = Vec::new();
     let base = |kind: &str, stack: u64, n: u64, shape: &str, teardown: &str| C18World {
         kind: kind.into(), stack_bytes: stack, n, shape: shape.into(), shape_seed: 1, post: "none".into(), post_count: 0,
-        teardown: teardown.into(), partial: n / 3, op: "intersection".into(),
+        teardown: teardown.into(), partial: n / 3, op: "intersection".into(), first: "none".into(),
     };
     // every teardown mode on both chain directions at 3e6 keys, both budgets
     for (i, td) in TEARDOWNS.iter().enumerate() {
@@ -53,6 +57,14 @@ fn grid(tier: Tier) -> Vec<C18World> {
     }
     for (i, sh) in SHAPES.iter().enumerate() {
         g.push(base(if i % 2 == 0 { "tree" } else { "set" }, STACKS[(i + 1) % 2], 1_000_000, sh, "drop"));
+    }
+    // one operation aimed at either end of an untouched chain (the far end is n levels deep)
+    for (i, f) in FIRSTS.iter().enumerate().skip(1) {
+        for (j, sh) in ["asc", "desc"].iter().enumerate() {
+            let mut w = base(if (i + j) % 2 == 0 { "tree" } else { "set" }, STACKS[(i + j) % 2], 3_000_000, sh, "drop");
+            w.first = (*f).into();
+            g.push(w);
+        }
     }
     // chain partially restructured by lookups / removals before teardown
     let mut w = base("tree", 2 << 20, 2_000_000, "asc", "drop");
@@ -274,10 +286,23 @@ fn tree_scenario<C: Cont>(w: &C18World, mut c: C) {
         c.ins(k * 2);
     }
     marker(&format!("built len={} depth={}", c.size(), depth()));
-    // queries on the freshly built shape
     let n = w.n;
     let mut r = Rng::stream(w.shape_seed, "post");
     let mut acc = 0u64;
+    let top = 2 * (n.max(1) - 1);
+    match w.first.as_str() {
+        "remove_min" => acc += c.rem(0) as u64,
+        "remove_max" => acc += c.rem(top) as u64,
+        "next_min" => acc += c.succ(0).unwrap_or(0),
+        "prev_max" => acc += c.pred(top).unwrap_or(0),
+        "contains_min" => acc += c.has(0) as u64,
+        "contains_max" => acc += c.has(top) as u64,
+        "min" => acc += c.lo().unwrap_or(0),
+        "max" => acc += c.hi().unwrap_or(0),
+        _ => {}
+    }
+    marker(&format!("first {} depth={}", w.first, depth()));
+    // queries on the shape
     acc += c.lo().unwrap_or(0) + c.hi().unwrap_or(0);
     for _ in 0..16 {
         let k = r.below(2 * n.max(1));
@@ -428,12 +453,13 @@ impl World for C18World {
             teardown: (*r.pick(&TEARDOWNS)).into(),
             partial: r.below(n + 1),
             op: (*r.pick(&["intersection", "difference"])).into(),
+            first: (*r.pick(&FIRSTS)).into(),
         }
     }
 
     fn to_json(&self) -> Value {
         json!({"kind": self.kind, "stack_bytes": self.stack_bytes, "n": self.n, "shape": self.shape, "shape_seed": self.shape_seed,
-            "post": self.post, "post_count": self.post_count, "teardown": self.teardown, "partial": self.partial, "op": self.op})
+            "post": self.post, "post_count": self.post_count, "teardown": self.teardown, "partial": self.partial, "op": self.op, "first": self.first})
     }
 
     fn from_json(v: &Value) -> Result<Self, String> {
@@ -442,6 +468,7 @@ impl World for C18World {
         Ok(C18World {
             kind: s("kind")?, stack_bytes: u("stack_bytes")?, n: u("n")?, shape: s("shape")?, shape_seed: u("shape_seed")?,
             post: s("post")?, post_count: u("post_count")?, teardown: s("teardown")?, partial: u("partial")?, op: s("op")?,
+            first: v["first"].as_str().unwrap_or("none").to_string(),
         })
     }
 
@@ -478,7 +505,7 @@ impl World for C18World {
             st.add("boolean_input_edges", 4 * self.n + 2);
         }
         let mut dh = LogHash::new();
-        dh.add_bytes(format!("{}/{}/{}/{}/{}/{}", self.kind, self.shape, self.teardown, self.stack_bytes, self.post, (self.n as f64).log10().floor()).as_bytes());
+        dh.add_bytes(format!("{}/{}/{}/{}/{}/{}/{}", self.kind, self.shape, self.teardown, self.stack_bytes, self.post, self.first, (self.n as f64).log10().floor()).as_bytes());
         st.distinct.insert(dh.0);
         let violation = if let Some(sig) = out.status.signal() {
             st.inc("children_killed_by_signal");
@@ -522,6 +549,7 @@ impl World for C18World {
         };
         push(&|w| { w.post = "none".into(); w.post_count = 0 });
         push(&|w| w.shape = "asc".into());
+        push(&|w| w.first = "none".into());
         push(&|w| if w.kind != "boolean" { w.teardown = "drop".into() });
         push(&|w| if w.kind == "set" { w.kind = "tree".into() });
         push(&|w| { w.n = (w.n / 2).max(1); w.partial = w.partial.min(w.n) });
@@ -532,7 +560,7 @@ impl World for C18World {
     }
 
     fn signature(&self) -> String {
-        format!("c18:{}:{}:{}:{}", self.kind, self.shape, if self.kind == "boolean" { &self.op } else { &self.teardown }, self.stack_bytes >> 20)
+        format!("c18:{}:{}:{}:{}:{}", self.kind, self.shape, if self.kind == "boolean" { &self.op } else { &self.teardown }, self.first, self.stack_bytes >> 20)
     }
 }
 
